@@ -25,8 +25,14 @@ def seed():
         return 0
 
 
+def _wd(pid):
+    # one directory per running process, so that two runs of the same check (a seed trial next to a
+    # regular run) never empty each other's scratch
+    return os.path.join(WORK, f"{pid}.{os.getpid()}")
+
+
 def workdir(pid, clean=True):
-    d = os.path.join(WORK, pid)
+    d = _wd(pid)
     if clean and os.path.isdir(d):
         shutil.rmtree(d, ignore_errors=True)
     os.makedirs(d, exist_ok=True)
@@ -34,7 +40,7 @@ def workdir(pid, clean=True):
 
 
 def cleanup(pid):
-    shutil.rmtree(os.path.join(WORK, pid), ignore_errors=True)
+    shutil.rmtree(_wd(pid), ignore_errors=True)
 
 
 # --------------------------------------------------------------------------- TLC
